@@ -93,7 +93,8 @@ def replLoop (size newSize : Nat → Nat) : List Nat → Nat → List Nat → Li
       else replLoop size newSize ts lastPos rep
     else (rep, lastPos)
 
-/-- the redistribution loop of `tryReorder`: (res, moved, ext) -/
+/-- the redistribution loop of `tryReorder`: (res, moved, ext).  (The header chunk is tested first
+in the Go code, so its table index 0 is never compared with `biggestLookup`.) -/
 def distribute (biggest : Nat) (rep : List Nat) :
     List Chunk → List Chunk × List Chunk × List Chunk
   | [] => ([], [], [])
@@ -101,13 +102,14 @@ def distribute (biggest : Nat) (rep : List Nat) :
     let r := distribute biggest rep cs
     match c.code with
     | .header => (c :: r.1, r.2.1, r.2.2)
-    | code =>
-      if code.tIdx == biggest then (r.1, c :: r.2.1, r.2.2)
-      else if rep.contains code.tIdx then
-        match code with
-        | .sub i j => (⟨.ext i j, 8⟩ :: r.1, r.2.1, c :: r.2.2)
-        | _ => (c :: r.1, r.2.1, r.2.2)
+    | .table i =>
+      if i == biggest then (r.1, c :: r.2.1, r.2.2) else (c :: r.1, r.2.1, r.2.2)
+    | .sub i j =>
+      if i == biggest then (r.1, c :: r.2.1, r.2.2)
+      else if rep.contains i then (⟨.ext i j, 8⟩ :: r.1, r.2.1, c :: r.2.2)
       else (c :: r.1, r.2.1, r.2.2)
+    | .ext i _ =>
+      if i == biggest then (r.1, c :: r.2.1, r.2.2) else (c :: r.1, r.2.1, r.2.2)
 
 /-- `tryReorder` -/
 def tryReorder (ll : List Lookup) (chunks : List Chunk) : Outcome (List Chunk) :=
@@ -139,17 +141,19 @@ def pos? (lay : List (Code × Nat)) (c : Code) : Option Nat :=
 
 def pos (lay : List (Code × Nat)) (c : Code) : Nat := (pos? lay c).getD 0
 
+/-- `subtablePos, replaced := chunkPos[chunkExtReplace|tCode|sCode]; if !replaced { … }` -/
+def subPos (lay : List (Code × Nat)) (i j : Nat) : Nat :=
+  match pos? lay (.ext i j) with
+  | some p => p
+  | none => pos lay (.sub i j)
+
 /-- subtable offsets of lookup `i` (with the refusal added by the repair) -/
 def subOffsets (lay : List (Code × Nat)) (i base : Nat) : (n : Nat) → (j : Nat) → Outcome (List Nat)
   | 0, _ => .ok []
   | n + 1, j =>
-    let p := match pos? lay (.ext i j) with
-      | some p => p
-      | none => pos lay (.sub i j)
-    let off := p - base
-    if off > 0xFFFF then .panic "too much data for lookup list table"
+    if subPos lay i j - base > 0xFFFF then .panic "too much data for lookup list table"
     else match subOffsets lay i base n (j + 1) with
-      | .ok r => .ok (off :: r)
+      | .ok r => .ok ((subPos lay i j - base) :: r)
       | o => o
 
 /-- the bytes appended for one chunk -/
@@ -244,21 +248,25 @@ def specExtRec (b : Bytes) (p : Nat) : Option (Nat × Nat) :=
   | some fmt, some et, some hi, some lo => if fmt == 1 then some (et, p + (hi * 65536 + lo)) else none
   | _, _, _, _ => none
 
+/-- after the fixed fields of a Lookup table have been read: resolve extension records -/
+def specFinish (b : Bytes) (extType lp tp flags : Nat) (mfs : Option Nat) (offs : List Nat) :
+    Option SpecLookup :=
+  if tp == extType then
+    match offs.mapM (fun o => specExtRec b (lp + o)) with
+    | some [] => some ⟨tp, flags, mfs, []⟩
+    | some ((et, p) :: recs) =>
+      if ((et, p) :: recs).all (·.1 == et) && et != extType then
+        some ⟨et, flags, mfs, ((et, p) :: recs).map (·.2)⟩
+      else none
+    | none => none
+  else some ⟨tp, flags, mfs, offs.map (lp + ·)⟩
+
 def specLookup (b : Bytes) (extType : Nat) (lp : Nat) : Option SpecLookup :=
   match u16at b lp, u16at b (lp + 2), u16at b (lp + 4) with
   | some tp, some flags, some cnt =>
     match u16s b (lp + 6) cnt,
         (if flags / 16 % 2 == 1 /- 0x0010 -/ then (u16at b (lp + 6 + 2 * cnt)).map some else some none) with
-    | some offs, some mfs =>
-      if tp == extType then
-        match offs.mapM (fun o => specExtRec b (lp + o)) with
-        | some [] => some ⟨tp, flags, mfs, []⟩
-        | some ((et, p) :: recs) =>
-          if ((et, p) :: recs).all (·.1 == et) && et != extType then
-            some ⟨et, flags, mfs, ((et, p) :: recs).map (·.2)⟩
-          else none
-        | none => none
-      else some ⟨tp, flags, mfs, offs.map (lp + ·)⟩
+    | some offs, some mfs => specFinish b extType lp tp flags mfs offs
     | _, _ => none
   | _, _, _ => none
 
@@ -280,9 +288,15 @@ def recovers (b : Bytes) (extType : Nat) (ll : List Lookup) : Bool :=
   | none => false
   | some sl =>
     sl.length == ll.length &&
-    (sl.zip ll).all fun (s, l) =>
-      (s.type, s.flags, s.mfs) == expected l &&
-      s.subPos.length == l.subs.length &&
-      (s.subPos.zip l.subs).all fun (p, st) => (b.drop p).take st.bytes.length == st.bytes
+    (List.range ll.length).all fun i =>
+      match sl[i]?, ll[i]? with
+      | some s, some l =>
+        (s.type, s.flags, s.mfs) == expected l &&
+        s.subPos.length == l.subs.length &&
+        (List.range l.subs.length).all fun j =>
+          match s.subPos[j]?, l.subs[j]? with
+          | some p, some st => (b.drop p).take st.bytes.length == st.bytes
+          | _, _ => false
+      | _, _ => false
 
 end SfntV.Otl.LL
